@@ -297,6 +297,28 @@ def gen_agg(rng, n: int, depth: int, kind: str) -> dict:
     return {"op": "agg", "kind": kind, "a": gen_node(rng, n, mc, depth - 1), "idx": idx, "scale": scale, "rho": rho}
 
 
+
+def gen_probe_case(rng) -> dict | None:
+    """Out-of-scope probes (never a violation): documented limitations of the code."""
+    n = rng.pick([2, 3])
+    kind = rng.pick(["scalar+vector-constant", "nonsymmetric-hessian", "array-style-t2"])
+    if kind == "scalar+vector-constant":
+        tree = {"op": rng.pick(["add", "sub"]), "a": gen_scalar(rng, n, 1), "b": {"op": "arr", "v": [str(rng.randint(-3, 3)) for _ in range(n)]}}
+    elif kind == "nonsymmetric-hessian":
+        H = [[str(rng.randint(-2, 2)) for _ in range(n)] for _ in range(n)]
+        tree = {"op": "t2", "a": gen_scalar(rng, n, 1), "at": gen_point(rng, n), "H": H}
+    else:
+        tree = {"op": "t2", "a": gen_poly(rng, n, 1, "a"), "at": gen_point(rng, n), "H": [["0"] * n for _ in range(n)]}
+    try:
+        out_dim(tree, n)
+    except IllShaped:
+        return None
+    pts = in_scope_points(tree, n, [gen_point(rng, n) for _ in range(4)])[:1]
+    if not pts:
+        return None
+    return {"n": n, "tree": tree, "points": pts, "order": "vj", "probe": kind}
+
+
 def has_smooth(node: dict) -> bool:
     return (node["op"] == "agg" and node["kind"] in SMOOTH_AGG) or any(has_smooth(c) for c in children(node))
 
@@ -860,7 +882,7 @@ def check_cases(res: Result, cases: list[dict], in_scope: bool = True, use_model
                              "correspondence": "Driver/C10.lean `eval`"},
                         )
                 elif not in_scope:
-                    res.count("probe-disagreement")
+                    res.count("probe-disagreement:" + str(case.get("probe", "")))
             else:
                 res.traces_validated += 1
 
@@ -1119,6 +1141,9 @@ def run(ctx) -> Result:
         if c is not None:
             smooth.append(c)
     check_cases(res, smooth, True)
+    probes = [c for c in (gen_probe_case(rng) for _ in range(60)) if c is not None]
+    check_cases(res, probes, False)
+    res.count("stream:probe(out-of-scope)", len(probes))
     disc_cases = [gen_disc_case(rng) for _ in range(3000 if ctx.thorough else 200)]
     check_cases(res, disc_cases, True)
     res.count("stream:discipline", len(disc_cases))
